@@ -33,19 +33,22 @@ ATTRS = ("type", "path", "value")
 
 
 # ------------------------------------------------------------------------------ Q1
-def isinstance_guards(test, positive=True):
-    """variables known to be MarshalEvent when `test` evaluates to `positive`."""
+def isinstance_guards(test, positive=True, flags=None):
+    """variables known to be MarshalEvent when `test` evaluates to `positive`.
+    `flags`: {flag name: set of variables} for boolean locals assigned from such a test."""
     out = set()
     if isinstance(test, ast.UnaryOp) and isinstance(test.op, ast.Not):
-        return isinstance_guards(test.operand, not positive)
+        return isinstance_guards(test.operand, not positive, flags)
     if isinstance(test, ast.BoolOp):
         if isinstance(test.op, ast.And) and positive:
             for v in test.values:
-                out |= isinstance_guards(v, True)
+                out |= isinstance_guards(v, True, flags)
         if isinstance(test.op, ast.Or) and not positive:
             for v in test.values:
-                out |= isinstance_guards(v, False)
+                out |= isinstance_guards(v, False, flags)
         return out
+    if positive and flags and isinstance(test, ast.Name) and test.id in flags:
+        return set(flags[test.id])
     if positive and isinstance(test, ast.Call) and call_name(test) == "isinstance" and len(test.args) == 2 \
             and isinstance(test.args[0], ast.Name) and norm(test.args[1]) == "MarshalEvent":
         out.add(test.args[0].id)
@@ -58,6 +61,10 @@ def known_marshal(cfg: CFG, entry_known=frozenset()):
     for n in cfg.nodes:
         if n.kind == "test":
             allv |= isinstance_guards(n.ast, True) | isinstance_guards(n.ast, False)
+        if n.kind == "stmt" and isinstance(n.ast, ast.Assign) and len(n.ast.targets) == 1 and isinstance(n.ast.targets[0], ast.Name):
+            for v in isinstance_guards(n.ast.value, True):
+                allv.add(v)
+                allv.add(f"flag:{n.ast.targets[0].id}:{v}")
     allv |= set(entry_known)
     preds = {n.id: [] for n in cfg.nodes}
     for n in cfg.nodes:
@@ -69,13 +76,22 @@ def known_marshal(cfg: CFG, entry_known=frozenset()):
     IN = {n.id: set(allv) for n in cfg.nodes}
     IN[cfg.entry.id] = set(entry_known)
 
+    def flags_of(state):
+        fl = {}
+        for x in state:
+            if x.startswith("flag:"):
+                _, f, v = x.split(":")
+                fl.setdefault(f, set()).add(v)
+        return fl
+
     def out_of(n, lab):
         s = set(IN[n.id])
+        fl = flags_of(s)
         if n.kind == "test":
             if lab == "true":
-                s |= isinstance_guards(n.ast, True)
+                s |= isinstance_guards(n.ast, True, fl)
             elif lab == "false":
-                s |= isinstance_guards(n.ast, False)
+                s |= isinstance_guards(n.ast, False, fl)
         # kills
         killed = set()
         if n.kind == "for":
@@ -86,9 +102,17 @@ def known_marshal(cfg: CFG, entry_known=frozenset()):
                 killed |= {x.id for x in ast.walk(t) if isinstance(x, ast.Name)}
         elif n.kind == "handler" and n.ast.name:
             killed.add(n.ast.name)
+        def drop(st):
+            return {x for x in st if x not in killed and not (x.startswith("flag:") and (x.split(":")[1] in killed or x.split(":")[2] in killed))}
         if lab == "exc":
-            return set(IN[n.id]) - killed
-        return s - killed
+            return drop(set(IN[n.id]))
+        s = drop(s)
+        # a boolean local assigned from a guard expression remembers what it implies
+        if n.kind == "stmt" and isinstance(n.ast, ast.Assign) and len(n.ast.targets) == 1 and isinstance(n.ast.targets[0], ast.Name):
+            for v in isinstance_guards(n.ast.value, True, flags_of(set(IN[n.id]))):
+                if v != n.ast.targets[0].id:
+                    s.add(f"flag:{n.ast.targets[0].id}:{v}")
+        return s
 
     changed = True
     while changed:
@@ -104,7 +128,7 @@ def known_marshal(cfg: CFG, entry_known=frozenset()):
     return IN
 
 
-def guarded_in_expr(use, var):
+def guarded_in_expr(use, var, flags=None):
     """is the attribute load inside a BoolOp-And after an isinstance(var, MarshalEvent) conjunct
     (or after `not isinstance` in an Or)?"""
     child, p = use, getattr(use, "_parent", None)
@@ -112,9 +136,9 @@ def guarded_in_expr(use, var):
         if isinstance(p, ast.BoolOp):
             idx = next(i for i, v in enumerate(p.values) if v is child or any(x is child for x in ast.walk(v)))
             for v in p.values[:idx]:
-                if isinstance(p.op, ast.And) and var in isinstance_guards(v, True):
+                if isinstance(p.op, ast.And) and var in isinstance_guards(v, True, flags):
                     return True
-                if isinstance(p.op, ast.Or) and var in isinstance_guards(v, False):
+                if isinstance(p.op, ast.Or) and var in isinstance_guards(v, False, flags):
                     return True
         if isinstance(p, ast.IfExp) and (child is p.body) and var in isinstance_guards(p.test, True):
             return True
@@ -182,7 +206,11 @@ def q1(run, project):
                     node = cfg.node_of(n)
                     if node is None:
                         raise AnalysisError(f"Q1: no CFG node for {norm(n)} in {q}")
-                    ok = n.value.id in IN[node.id] or guarded_in_expr(n, n.value.id)
+                    fl = {}
+                    for x in IN[node.id]:
+                        if x.startswith("flag:"):
+                            fl.setdefault(x.split(":")[1], set()).add(x.split(":")[2])
+                    ok = n.value.id in IN[node.id] or guarded_in_expr(n, n.value.id, fl)
                     n_uses += 1
                     stmt = n
                     while not isinstance(stmt, ast.stmt):
